@@ -56,6 +56,9 @@ def check(ctx):
         later = [n for n in _ast2.walk(ns) if isinstance(n, _ast2.If) and eqv(n.test, "start >= dim - 1")]
         ok = ("step < 0", True) in facts and len(later) == 1 and dominates(ns, neg[0], later[0])
     ctx.ob("ALG.normalize-slice.before-start", ns, "step < 0 and start < 0 (clamped by slice.indices): the empty slice slice(0, 0, step) is returned before start is interpreted", ok, "" if ok else "the clamped start -1 is kept as a literal: x[-n-2:-n-1:-2] selects the last element instead of nothing")
+    from .C25 import newaxis_taker
+
+    newaxis_taker(ctx)
 
 
 def take_rules(ctx):
